@@ -1,4 +1,5 @@
 import Spok.Syntax.Printer
+import Spok.Lemmas.LexGraph
 /-! # Expectations over the regenerated facts (`Generated/Facts.lean`, `Generated/Unicode.lean`)
 
 These are proof obligations that tie constants of the Go source and tables of the Go toolchain to the
@@ -27,5 +28,19 @@ theorem printer_literals :
     Facts.litAssignString = [" := ", "\n"] ∧
     Facts.litTaskString = ["task ", "(", ", ", ")", " -> ", "(", ", ", ")", " {\n", "    ", "\n", "}\n\n"] ∧
     Facts.litFunctionString = ["(", ", ", ")"] ∧ Facts.litTreeWrite = ["", "#\n"] := by decide
+
+/-- the model never takes a transition outside `nextTags` … -/
+theorem lexer_model_graph (l : L) (t : Tag) : (stepTag l t).2 ∈ nextTags t := stepTag_next l t
+
+/-- … and `nextTags` is, state function by state function, exactly the set of state functions the Go
+    source of `lexXxx` returns (extracted from the AST of lexer/lexer.go on every run; `nil` and error
+    returns are the ends of the scan on both sides): a new or removed transition in the Go lexer breaks this. -/
+theorem lexer_graph_matches_source :
+    Tag.live.all (fun t => goEdges Facts.lexReturns t == some (modelEdges t)) = true := by decide
+
+/-- every state function of the Go lexer is modelled (nothing but `unexpectedToken`, which only reports an
+    error, is left over) -/
+theorem lexer_functions_all_modelled :
+    (Facts.lexReturns.map (·.1)).filter (fun f => !(Tag.live.map Tag.goName).contains f) = ["unexpectedToken"] := by decide
 
 end Spok.Props.Facts
